@@ -194,6 +194,36 @@ def build(run):
     for nm, e in math_exprs:
         run.add(f"evaluate-numeric/{nm}", num_ob(nm, e), kind="bounded")
 
+    # ---- guarded conditionals: the UNSELECTED branch is undefined at the point (division by zero, ln / sqrt of a negative number, a mapped callable
+    # that raises).  Contract: e(x, mapping) is the value of the selected branch; evaluating must not touch the other branch.
+    def guarded():
+        def undefined_for_nonpositive(xx, der=()):
+            if xx[0] <= 0:
+                raise ValueError("mapped function undefined for x <= 0")
+            return 3.0
+        cases = [
+            ("guarded division", lambda: x[1] + conditional(gt(x[0], 0), 1 / x[0], 0), (0.0, 7.0), {}, 7.0),
+            ("guarded division (selected branch is the division)", lambda: conditional(gt(x[0], 0), 1 / x[0], 1 / (x[0] - 2)), (2.0, 1.0), {}, 0.5),
+            ("guarded ln", lambda: conditional(lt(x[0], 1), x[1], ln(x[0] - 1)), (0.5, 7.0), {}, 7.0),
+            ("sqrt of |x| through a conditional", lambda: conditional(ge(x[0], 0), sqrt(x[0]), sqrt(-x[0])), (-4.0, 7.0), {}, 2.0),
+            ("guarded mapped callable", lambda: x[1] * conditional(gt(x[0], 0), f, -1.0), (-2.0, 7.0), {f: undefined_for_nonpositive}, -7.0),
+            ("nested guards", lambda: conditional(gt(x[0], 0), conditional(gt(x[0], 1), ln(x[0] - 1), 5.0), 1 / x[0] if False else sqrt(-x[0])), (0.5, 0.0), {}, 5.0),
+            ("guard inside min/max", lambda: max_value(conditional(gt(x[0], 0), 1 / x[0], 0.0), 0.25), (0.0, 0.0), {}, 0.25),
+        ]
+        n = 0
+        for nm_, mk_, pt, mp, want in cases:
+            e_ = mk_()
+            try:
+                got = e_(pt, dict(mp))
+            except Exception as ex:  # noqa: BLE001
+                return violated(f"{nm_}: evaluating {e_} at x={pt} raised {type(ex).__name__}({ex}) although the selected branch is defined there and has the value {want}",
+                                replay={"expr": str(e_), "point": list(pt), "expected": want, "error": f"{type(ex).__name__}: {ex}"}, reproduced=True, backend="exec")
+            n += 1
+            if abs(complex(got) - want) > 1e-12:
+                return violated(f"{nm_}: e(x) = {got}, selected branch gives {want}", replay={"expr": str(e_), "point": list(pt)}, reproduced=True, backend="exec")
+        return bounded_ok(n, f"{n} guarded conditionals at points where the unselected branch is undefined", sample="the selected branch's value is returned, the other branch is not evaluated")
+    run.add("evaluate-guarded/conditional-does-not-evaluate-the-unselected-branch", guarded, kind="bounded")
+
     def canary():
         e = f * g
         paths, _ = explore(lambda: e((SymReal("x[0|]"), SymReal("x[1|]")), mapping_sym()), lambda: ())
